@@ -415,6 +415,11 @@ class Run:
         rec.emit("send_call", tok=tok, event=step["event"], style=style, args=args, ukw=ukw)
         try:
             res = self._call_style(style, step["event"], args, dict(ukw, _tok=tok))
+            if self.sc.driver == "inloop" and self.spec.get("any_async"):
+                import inspect as _i
+                if not _i.isawaitable(res):
+                    # the caller writes `await sm.send(...)` for every event name, allowed or not, known or not
+                    rec.emit("note", what="not-awaitable-in-loop", event=step["event"], style=style, got=type(res).__name__)
             res = yield res
             rec.emit("send_return", tok=tok, val=res_repr(res))
         except Exception as err:  # noqa: BLE001
